@@ -217,7 +217,7 @@ int c08_poly_main(int argc, char** argv) {
   std::string topo = ARGS.opt("--topology", "both");
   std::string dims = ARGS.opt("--dims", "1,2");
   int depth = atoi(ARGS.opt("--depth", "12").c_str());
-  int menu_limit = atoi(ARGS.opt("--menu", ARGS.thorough() ? "16" : "10").c_str());
+  int menu_limit = atoi(ARGS.opt("--menu", ARGS.thorough() ? "13" : "10").c_str());
   std::string repmode = ARGS.opt("--reps", ARGS.thorough() ? "full" : "star");
 
   std::vector<std::unique_ptr<PolyDom> > doms;
